@@ -164,6 +164,10 @@ pub fn apply<V: VirtualFileSystem>(vfs: &V, f: &[&str]) -> Option<String> {
             if get(&o, "norecurse").is_some() {
                 c = c.recurse(false);
             }
+            // the working directory changing between building the builder and running it (a relative spelling, hex)
+            if let Some(d) = get(&o, "cwd") {
+                let _ = vfs.set_cwd(crate::unhex_s(&d));
+            }
             r_unit(c.exec())
         },
         _ => return None,
